@@ -5,6 +5,7 @@ import H264.SliceMono
 import H264.SeiMono
 import H264.SpsExact
 import H264.PpsExact
+import H264.SpsRangesAll
 /-! # C17 — Parsing a partially buffered NAL never contradicts parsing the complete NAL
 
 `Mono p`: on every truncated, still-incomplete view (`fin = wouldBlock`, bits a prefix) the parser `p` either fails
@@ -38,9 +39,10 @@ theorem partial_nal_agrees {α} (p : P α) (hp : Mono p) (nal : List UInt8) (hv 
   NalSrc.partial_agrees p hp nal hv chunks' hc t hflat hne
 
 /-- SPS and PPS parsing must see the end of the RBSP: they never succeed on an incomplete NAL -/
-theorem sps_never_succeeds_on_partial (s : Src) (h : s.fin ≠ .eof) (v : Sps.Sps) (s' : Src)
-    (hmvc : Sps.mvcOnlyProfile v.profileIdc = false) : Sps.parseSps s ≠ .ok (v, s') :=
-  Sps.parseSps_needs_eof s h v s' hmvc
+theorem sps_never_succeeds_on_partial (s : Src) (h : s.fin ≠ .eof) (v : Sps.Sps) (s' : Src) :
+    Sps.parseSps s ≠ .ok (v, s') := by
+  intro hok
+  exact h (Sps.parseSps_ranges_all s s' v hok).2.2.2.2
 
 theorem pps_never_succeeds_on_partial (spsById) (s : Src) (h : s.fin ≠ .eof) (v : Pps.Pps) (s' : Src) :
     Pps.parsePps spsById s ≠ .ok (v, s') := by
